@@ -243,6 +243,7 @@ func checkC20(c *hx.Ctx) {
 	c.Floor("batches_with_deferral", 5)
 	c.Floor("ops_accepted_under_v0_anchored_after_v1_genesis", 1)
 	c.Floor("rest_submissions", 20)
+	c.Floor("operations_with_window", 20)
 }
 
 func runPipeline(c *hx.Ctx, r *hx.Rng, ri int, twoVers, useUnpub, concurrent bool) {
@@ -328,15 +329,35 @@ func runPipeline(c *hx.Ctx, r *hx.Rng, ri int, twoVers, useUnpub, concurrent boo
 			return true
 		default:
 			pd.d.MaxDelta = maxDelta
+			// anchoring windows relative to the ledger clock (only without unpublished store, DESIGN 2.3): the operation may be
+			// anchored inside or outside its window depending on when its batch is flushed
+			var from, until int64
+			if !pl.useUnpub && rr.Chance(1, 3) {
+				now := int64(pl.ledger.Now())
+				switch rr.Intn(4) {
+				case 0:
+					from, until = now-3, now+int64(rr.Intn(150))
+				case 1:
+					from = now - int64(rr.Intn(250)) // default until = from + MaxOperationTimeDelta of the accepting version
+				case 2:
+					from = now + int64(rr.Intn(100)) // possibly still early when anchored
+				default:
+					until = now + int64(rr.Intn(200))
+				}
+				if from < 0 {
+					from = 1
+				}
+				c.Count("operations_with_window")
+			}
 			switch x := rr.Intn(10); {
 			case x < 6:
-				b, err = pd.d.Update(patchesFor(rr, ids, enabled), 0, 0)
+				b, err = pd.d.Update(patchesFor(rr, ids, enabled), from, until)
 				kind = "update"
 			case x < 9:
-				b, err = pd.d.Recover(append(patchesFor(rr, ids, enabled), patchAddKeys(genKeyEntry(rr, "recKey"))), nil, genOrigin(rr), 0, 0)
+				b, err = pd.d.Recover(append(patchesFor(rr, ids, enabled), patchAddKeys(genKeyEntry(rr, "recKey"))), nil, genOrigin(rr), from, until)
 				kind = "recover"
 			default:
-				b, err = pd.d.Deactivate(0, 0)
+				b, err = pd.d.Deactivate(from, until)
 				kind = "deactivate"
 			}
 			if err != nil {
